@@ -20,6 +20,7 @@ CONSTANTS Families,        \* families of the catalogue to enumerate
           ValNDims,        \* dimensionalities in which the value classes are explored
           FixedTextWrite,  \* mechanism variant, see Frame.tla
           FixedWrap,       \* mechanism variant, see Frame.tla
+          FixedOptCopy,    \* mechanism variant, see Frame.tla
           DoExport
 
 VARIABLES phase, call, nd, opt, lay, val, size, args0, args, outcome, work, ver
@@ -35,7 +36,7 @@ Init == /\ phase = "start" /\ call = "" /\ nd = 0 /\ opt = "" /\ lay = <<>> /\ v
 
 ChooseCall ==
     /\ phase = "start"
-    /\ \E c \in {x \in FrCalls : x.fam \in Families} : \E d \in c.ndims \cap NDims : \E o \in c.opts :
+    /\ \E c \in {x \in FrCalls : x.fam \in Families} : \E d \in c.ndims \cap NDims : \E o \in c.opts \cup c.axopts :
           call' = c.name /\ nd' = d /\ opt' = o
     /\ phase' = "call" /\ UNCHANGED <<lay, val, size, args0, args, outcome, work, ver>>
 
@@ -65,7 +66,7 @@ Invoke ==
 \* ---- implementation-shaped path ------------------------------------------------------------
 MAcquire ==
     /\ phase = "built"
-    /\ work' = [i \in 1..NP |-> FrAcquire(C, opt, lay[i], FixedTextWrite, FixedWrap)]
+    /\ work' = [i \in 1..NP |-> FrAcquire(C, opt, lay[i], FixedTextWrite, FixedWrap, FixedOptCopy)]
     /\ phase' = "m_acquired" /\ UNCHANGED <<call, nd, opt, lay, val, size, args0, args, outcome, ver>>
 
 MWork ==
@@ -105,15 +106,23 @@ CatalogueOK == \A c \in FrCalls :
     /\ \E i \in DOMAIN c.params : ~c.params[i].mut
     /\ c.rejopts \subseteq c.opts /\ c.big \subseteq c.opts /\ (c.big # {} => 1 \in c.ndims)
     /\ \A i, j \in DOMAIN c.params : i # j => c.params[i].p # c.params[j].p
+    \* option axes: two to four axes of at least two values; the vectors have distinct option names, none of them a named option;
+    \* every pair of values of two axes occurs in a vector (strength 2)
+    /\ (c.axes # <<>> => Len(c.axes) \in 2..4 /\ \A i \in DOMAIN c.axes : Len(c.axes[i].vals) >= 2)
+    /\ Cardinality(c.axopts) = Cardinality(FrAxVectors(c.axes)) /\ c.axopts \cap c.opts = {}
+    /\ \A i, j \in DOMAIN c.axes : i < j => \A a \in VRange(c.axes[i].vals), b \in VRange(c.axes[j].vals) :
+           \E v \in FrAxVectors(c.axes) : v[i] = a /\ v[j] = b
 
 LayoutsOK == phase \notin {"start", "call"} =>
     \A i \in 1..NP : /\ lay[i].kind \in FrKindsOf(C.params[i]) /\ FrLayoutOK(lay[i], nd) /\ FrValOK(C.params[i], lay[i], val[i], nd)
                      /\ size[i] \in FrSizes /\ (size[i] = "large" => nd = 1 /\ opt \in C.big)
+                     /\ (opt \in C.axopts => val[i] = "ord" /\ size[i] = "small")
 
 \* ---- export ----------------------------------------------------------------------------------
 Export == (DoExport /\ phase = "built") =>
     PrintT(<<"CASE", ToJson([call |-> call, fam |-> C.fam, nd |-> nd, opt |-> opt,
                              params |-> [i \in 1..NP |-> [p |-> C.params[i].p, role |-> C.params[i].role,
                                                           mut |-> C.params[i].mut, lay |-> lay[i], val |-> val[i], size |-> size[i]]],
+                             axn |-> [i \in DOMAIN C.axes |-> C.axes[i].ax],
                              expect |-> IF FrExpectReject(C, opt, val, size) THEN "reject" ELSE "any"])>>)
 =============================================================================
